@@ -198,7 +198,8 @@ CHECKS = {
             "All ranges x values (incl. bound +- tolerance and one quantum beyond) x tolerances, "
             "as floats, ints and mixed, for the three scalar helpers; all lattice points x 100 "
             "rectangles for the 2-D test and its agreement with the tolerant checker.",
-            "Dyadic alphabet keeps bound +- tolerance exact.",
+            "Dyadic alphabet keeps bound +- tolerance exact; the one place where it is not (an int bound "
+            "beyond 2^53 with a float tolerance) is explored too and is a listed known finding (K2).",
             "DESIGN.md §3 C18"),
     "C19": ("exhaustive enumeration (E3) of ordered port lists x derived lookup names through "
             "both layers with a stubbed enumerator",
